@@ -29,10 +29,10 @@ META = {
         'only under `not self.raw` and convert() is applied in both modes; C02.DISPATCH - a data row is recognised by the '
         'upper-cased first word; C02.BINARY - text from a file object whose mode contains b is decoded before parsing; '
         'C02.CONT - the continuation-joining pattern tolerates CR (and blanks) between the backslash and the newline; '
-        'C02.COMMENT-FIRST - comment-only lines are discarded before tokenising; C02.INTCONV - integer cells are converted by int() on the token text. C02.PER-INSTANCE - every container that methods fill through self is created per object in __init__ (no class-level mutable shared by all files); C02.TRIM - a line reaches the row/pair patterns trimmed on both sides whatever path trailing_comment takes; C02.CHARLEN - a char[] column without declared width takes the maximum of the value LENGTHS, and the maximum over a table without rows has a default; C02.TOKEN-WS - a bare word is split off with re.split over a whitespace class (blank and tab), maxsplit 1; C02.BINARY also: text/binary is decided without requiring a .mode attribute of the file object. NOT decided: comment/quote parity, '
+        'C02.COMMENT-FIRST - comment-only lines are discarded before tokenising; C02.INTCONV - integer cells are converted by int() on the token text. C02.PER-INSTANCE - every container that methods fill through self is created per object in __init__ (no class-level mutable shared by all files); C02.TRIM - a line reaches the row/pair patterns trimmed on both sides whatever path trailing_comment takes; C02.CHARLEN - a char[] column without declared width takes the maximum of the value LENGTHS, and the maximum over a table without rows has a default; C02.TOKEN-WS - a bare word is split off with re.split over a whitespace class (blank and tab), maxsplit 1; C02.BINARY also: text/binary is decided without requiring a .mode attribute of the file object. C02.CHAR-EXACT - a column is taken for character data only when its base type equals `char` (no substring test on the type text); NOT decided: comment/quote parity, '
         'token splitting, interleaved rows, char[] sizing, CRLF handling beyond the continuation pattern - these are '
         'statements about the language the regex chain accepts.'),
-    'floors': {'C02.NAME-EXACT': 1, 'C02.PAT-PAIR': 2, 'C02.ANGLE': 8, 'C02.RAW': 2, 'C02.DISPATCH': 1, 'C02.BINARY': 2,
+    'floors': {'C02.CHAR-EXACT': 1, 'C02.NAME-EXACT': 1, 'C02.PAT-PAIR': 2, 'C02.ANGLE': 8, 'C02.RAW': 2, 'C02.DISPATCH': 1, 'C02.BINARY': 2,
                'C02.CONT': 1, 'C02.INTCONV': 4, 'C02.COMMENT-FIRST': 1, 'C02.PER-INSTANCE': 2, 'C02.TRIM': 2, 'C02.CHARLEN': 4,
                'C02.TOKEN-WS': 1, 'C02.BLANK-SKIP': 1, 'C02.BRACE-TRIM': 1, 'C02.QUOTE-PAIR': 1},
 }
@@ -427,11 +427,26 @@ def check_blank_skip(ctx, yc):
                   'from a file object) makes get_token index an empty string and the whole read fails', construct='blank-line filter')
 
 
+def _first_norm(item):
+    """The repeated item of a raw (re._parser) MAX_REPEAT, in the normalised spelling rx.item_admits reads."""
+    return rx._norm(list(item[1][2]))[0]
+
+
 def check_brace_trim(ctx, yc):
     """C02.BRACE-TRIM: blanks between `{` and the content of a brace-wrapped value are not part of the value."""
     f = yc.method('get_token')
     lits = [(c, fn, p) for c, fn, p, _ in rx.regex_literals(f.node) if p.startswith('^\\{') or p.startswith('^{') or p.startswith('\\{')]
     ctx.need(lits, 'get_token: brace pattern not found')
+    def post_both(c):
+        st = c
+        while st is not None and not isinstance(st, ast.stmt):
+            st = getattr(st, '_parent', None)
+        blk = getattr(st, '_parent', None)
+        for fld in ('body', 'orelse'):
+            lst = getattr(blk, fld, None)
+            if isinstance(lst, list) and any(x is st for x in lst):
+                return any(isinstance(x, ast.Assign) and src(x.targets[0]) == 'word' and src(x.value).replace(' ', '') in ('word.strip()', 'word.rstrip()') for x in lst)
+        return False
     for c, fn, p in lits:
         items = rx.normal(p)
         # expect: AT, LITERAL '{', MAX_REPEAT(0..) whitespace, <capture>...
@@ -449,6 +464,18 @@ def check_brace_trim(ctx, yc):
                 lst = getattr(blk, fld, None)
                 if isinstance(lst, list) and any(x is st for x in lst):
                     post = any(isinstance(x, ast.Assign) and src(x.targets[0]) == 'word' and src(x.value).replace(' ', '') in ('word.strip()', 'word.lstrip()') for x in lst)
+        # the closing side: a greedy capture that admits blanks swallows the blanks before `}` (the `\\s*` after it never matches)
+        import re._parser as _sp
+        raw = list(_sp.parse(p))
+        cidx = next((i for i, it in enumerate(raw) if str(it[0]) == 'LITERAL' and it[1] == 125), None)
+        okc = True
+        if cidx is not None and cidx >= 2 and str(raw[cidx - 1][0]) == 'MAX_REPEAT' and str(raw[cidx - 2][0]) == 'SUBPATTERN':
+            inner = list(raw[cidx - 2][1][3])
+            if len(inner) == 1 and str(inner[0][0]) == 'MAX_REPEAT' and rx.item_admits(_first_norm(inner[0]), ' '):
+                okc = False
+        ctx.check('C02.BRACE-TRIM', okc or post_both(c), f, c, 'blanks before the closing brace are not part of the value (%r)' % p,
+                  msg='the brace pattern %r captures the content greedily, so the blanks before `}` stay in the value: `{hello }` reads as "hello " while '
+                      '`{ hello}` reads as "hello"; arbitrary blanks are part of the admissible layout' % p, construct='brace pattern, closing side ' + p)
         ctx.check('C02.BRACE-TRIM', ok or post, f, c, 'blanks after the opening brace are not part of the value (%r)' % p,
                   msg='the brace pattern %r keeps the blanks that follow `{`: `{ alpha beta}` reads as " alpha beta"; arbitrary blanks and tabs are part of the '
                       'admissible layout' % p, construct='brace pattern ' + p)
@@ -685,9 +712,41 @@ def check_token_ws(ctx, yc):
 
 
 
+def check_char_exact(ctx, yc):
+    """Whether a column holds character data is decided on its base type being exactly `char`: type words are arbitrary identifiers,
+    so a substring test (`typ.find('char')`, `'char' in typ`) takes an enum called `chartype` or `echarge` for a string column."""
+    n = 0
+    for m in ('isarray', 'char_length', 'dtype', 'convert', 'array_length', 'basetype', 'isenum'):
+        if m not in yc.methods:
+            continue
+        f = yc.method(m)
+        for c in walk_local(f.node):
+            sub = None
+            if isinstance(c, ast.Call) and isinstance(c.func, ast.Attribute) and c.func.attr in ('find', 'count', 'index', 'rfind') and c.args \
+                    and isinstance(c.args[0], ast.Constant) and c.args[0].value == 'char':
+                sub = c
+            elif isinstance(c, ast.Compare) and len(c.ops) == 1 and isinstance(c.ops[0], (ast.In, ast.NotIn)) and isinstance(c.left, ast.Constant) \
+                    and c.left.value == 'char':
+                sub = c
+            elif isinstance(c, ast.Compare) and len(c.ops) == 1 and isinstance(c.ops[0], (ast.Eq, ast.NotEq)) \
+                    and any(isinstance(x, ast.Constant) and x.value == 'char' for x in (c.left, c.comparators[0])):
+                n += 1
+                ctx.check('C02.CHAR-EXACT', True, f, c, '%s: character columns are recognised by `%s`' % (m, src(c)))
+                continue
+            if sub is None:
+                continue
+            n += 1
+            ctx.check('C02.CHAR-EXACT', False, f, sub, '',
+                      msg='yanny.%s recognises character columns by the substring test `%s` on the type text: a column whose enum type is called '
+                          '`chartype` (any identifier containing "char") is taken for a string column; as an array it is read as one scalar token'
+                          % (m, src(sub)), construct='substring test ' + src(sub))
+    ctx.need(n >= 1, 'yanny: no test for character columns found')
+
+
 def run(ctx):
     repo = ctx.repo
     yc = YannyClass(repo)
+    check_char_exact(ctx, yc)
     ctx.cover(yc.method('type'), yc.method('_parse'), yc.method('isarray'), yc.method('__init__'), yc.method('convert'))
     check_name_exact(ctx, yc)
     check_pat_pair(ctx, yc)
